@@ -244,7 +244,7 @@ class Lazy(ast.NodeTransformer):
 def evaluate(clause, env, pre_env):
     tree = ast.parse(clause.strip(), mode="eval")
     names = {n.id for n in ast.walk(tree) if isinstance(n, ast.Name)}
-    bad = names & UNSUPPORTED_NAMES
+    bad = (names & UNSUPPORTED_NAMES) - set(env)
     if bad:
         return None, f"uses {sorted(bad)}"
     tr = Lazy(pre_env)
@@ -460,6 +460,13 @@ def main():
                 continue
             rec["calls"] += 1
             env["result"] = res
+            if isinstance(res, list) and isinstance(kwargs.get("args"), list) and meth in ("proc_args", "_proc_args"):
+                # the ghost `yield_at` of the grouping contract, defined from the specification alone: the k-th argument is closed at the k-th index
+                # that is a break or the end of the list
+                a = kwargs["args"]
+                ends = [i for i in range(1, len(a) + 1) if i == len(a) or brk(a, i)]
+                env["yield_at"] = lambda y, _r=res, _e=ends, _n=len(a): next((_e[k] if k < len(_e) else _n + 1 for k, z in enumerate(_r) if z is y), _n + 1)
+                env["yielded"] = res
             for cl in c["ensures"]:
                 try:
                     ok, why = evaluate(cl, env, pre)
